@@ -95,6 +95,8 @@ def module_case(arg):
            "not_ok_skipped": 0}
     profile = dict(arg.get("profile") or {})
     profile["text"] = True
+    if arg["idx"] % 3 == 1:
+        profile["union_bias"] = True
     gm = cppsuite.gen_module(arg["seed"], "textmod", arg["idx"], profile)
     out["rejected"] = len(gm["rejected"])
     if gm["m"] is None:
@@ -198,7 +200,9 @@ def module_case(arg):
                             if dep in pos and pos[dep] > pos[f.name]:
                                 problems.append(("dependency-order", "%s before %s" % (dep, f.name), "after"))
             if problems:
-                out["viol"].append({"mech": "text:" + problems[0][0], "what": "struct %s params %r bytes %s options %r: %s\ntext: %s" % (
+                if cppsuite.signed_enum_taint(m, s, params, data):
+                    problems = [("signed-enum",) + problems[0][1:]]
+                out["viol"].append({"mech": ("text:" + problems[0][0]) if problems[0][0] != "signed-enum" else "signed-enum-narrow-field-zero-extended", "what": "struct %s params %r bytes %s options %r: %s\ntext: %s" % (
                     s.name, params, data.hex(), o, "; ".join("%s expected %s got %s" % p for p in problems[:4]), text[:600]),
                     "coords": gm["coords"], "struct": s.name, "params": params, "data": data.hex(), "option": k, "text": gm["text"]})
             elif out["sample"] is None and len(text) > 30 and o["multiline"]:
